@@ -1,6 +1,8 @@
 package compiler
 
 import (
+	"fmt"
+
 	"github.com/grafana/cog/internal/ast"
 	"github.com/grafana/cog/internal/tools"
 )
@@ -32,6 +34,7 @@ var _ Pass = (*AnonymousEnumToExplicitType)(nil)
 type AnonymousEnumToExplicitType struct {
 	newObjects     []ast.Object
 	currentPackage string
+	takenNames     map[string]struct{}
 }
 
 func (pass *AnonymousEnumToExplicitType) Process(schemas []*ast.Schema) ([]*ast.Schema, error) {
@@ -50,6 +53,12 @@ func (pass *AnonymousEnumToExplicitType) Process(schemas []*ast.Schema) ([]*ast.
 func (pass *AnonymousEnumToExplicitType) processSchema(schema *ast.Schema) (*ast.Schema, error) {
 	pass.newObjects = nil
 	pass.currentPackage = schema.Package
+
+	// names already used in the schema: a generated name must not replace an existing object
+	pass.takenNames = make(map[string]struct{}, schema.Objects.Len())
+	schema.Objects.Iterate(func(_ string, object ast.Object) {
+		pass.takenNames[object.Name] = struct{}{}
+	})
 
 	schema.Objects = schema.Objects.Map(func(_ string, object ast.Object) ast.Object {
 		return pass.processObject(object)
@@ -140,6 +149,14 @@ func (pass *AnonymousEnumToExplicitType) processStruct(pkg string, parentName st
 
 func (pass *AnonymousEnumToExplicitType) processAnonymousEnum(pkg string, parentName string, def ast.EnumType, nullable bool, defaultValue any) ast.Type {
 	enumTypeName := tools.UpperCamelCase(parentName)
+	for suffix := 2; ; suffix++ {
+		if _, taken := pass.takenNames[enumTypeName]; !taken {
+			break
+		}
+
+		enumTypeName = fmt.Sprintf("%s%d", tools.UpperCamelCase(parentName), suffix)
+	}
+	pass.takenNames[enumTypeName] = struct{}{}
 
 	values := make([]ast.EnumValue, 0, len(def.Values))
 	for _, val := range def.Values {
